@@ -39,7 +39,12 @@ def gen_cases(ctx, n_cases, gen, depth_max, bound=2 ** 20, accept=None):
     tries = 0
     while len(cases) < n_cases and tries < 50 * n_cases:
         tries += 1
-        t = gen.tree(rnd.randint(0, depth_max))
+        if rnd.random() < 0.08:   # wide operators: the generic to_dense path multiplies the identity on the left
+            t = gen.tree(rnd.randint(0, 2), (1, rnd.randint(9, 12)))
+        elif rnd.random() < 0.05:  # 1xN / Nx1
+            t = gen.tree(rnd.randint(0, 2), rnd.choice([(1, rnd.randint(1, 5)), (rnd.randint(1, 5), 1)]))
+        else:
+            t = gen.tree(rnd.randint(0, depth_max))
         m, n = T.shape(t)
         if m * n > 600 or m == 0 or n == 0:
             continue
@@ -115,11 +120,11 @@ def coq_case(case, obs, obsl=None):
             f"cvec := {T.zrow(obs['vec']) if obs and obs.get('ok') else '[]'} |}}")
 
 
-def eval_in_coq(name, case_terms, checker, shard=250, timeout=900):
+def eval_in_coq(name, case_terms, checker, shard=250, timeout=900, header_extra=""):
     """returns (failing indices, error text or None)"""
     jobs = []
     for s in range(0, len(case_terms), shard):
-        body = HEADER + "Definition cases : list case := [\n" + ";\n".join(case_terms[s:s + shard]) + "].\n"
+        body = HEADER + header_extra + "Definition cases : list case := [\n" + ";\n".join(case_terms[s:s + shard]) + "].\n"
         body += f"Eval vm_compute in (length cases, failing {checker} 0 cases).\n"
         jobs.append((f"{name}_{s // shard}", body))
     outs = core.coqc_many(jobs, timeout)
